@@ -68,6 +68,24 @@ def s1_driver(prog, ctx):
                                      if any(a[0] != "read" for a in acc)}
 
 
+def driver_location_state(prog, loc):
+    """('fresh'|'carried'|'constant'|'absent', node): how DatasetProcessor's `loc` (e.g. 'self.alignment_stat_counter') is treated inside one
+    iteration of the per-experiment loop - fresh = an unconditional plain write precedes every read / read-modify-write (self-calls inlined)."""
+    cls = prog.cls(DSP, "DatasetProcessor")
+    lin = carried.Linearizer(prog, cls)
+    acc = [(kind, uncond, f, st) for l, kind, uncond, f, st in lin.run("process_sample") if l == loc]
+    if not acc:
+        return "absent", None
+    if not any(a[0] in ("write", "rmw") for a in acc):
+        return "constant", acc[0][3]
+    for kind, uncond, f, st in acc:
+        if kind == "write" and uncond:
+            return "fresh", st
+        if kind in ("read", "rmw"):
+            return "carried", st
+    return "carried", acc[0][3]
+
+
 def reset_sites(prog, cname, attr):
     """Unconditional `Cls.attr = <fresh>` at top level of a per-experiment / per-task function."""
     out = []
